@@ -42,10 +42,19 @@ func VH_C18_FeeQuote() {
 	vreach("c18-pair-checked")
 }
 
-var vC18QuotesMethods = []string{"Quote", "Fee", "AddMiner", "AddMinerWithDefault", "UpdateMinerFees"}
+var vC18QuotesMethods = []string{"Quote", "Fee", "AddMiner", "AddMinerWithDefault", "UpdateMinerFees", "held quote: Fee", "held quote: Expiry"}
+
+// vC18Held: a quote handed out by Quote("a") before the two calls start, used directly by a caller
+var vC18Held *FeeQuote
 
 func vcallFeeQuotes(f *FeeQuotes, m int) {
 	switch m {
+	case 5:
+		if fee, err := vC18Held.Fee(FeeTypeData); err == nil && fee != nil {
+			_ = fee.MiningFee.Satoshis + fee.MiningFee.Bytes
+		}
+	case 6:
+		_ = vC18Held.Expiry()
 	case 0:
 		_, _ = f.Quote("a")
 	case 1:
@@ -64,6 +73,7 @@ func vcallFeeQuotes(f *FeeQuotes, m int) {
 // C18-B: the same for FeeQuotes (and the FeeQuote values it hands out).
 func VH_C18_FeeQuotes() {
 	f := NewFeeQuotes("a")
+	vC18Held, _ = f.Quote("a")
 	vshared(f, "FeeQuotes")
 	m1 := vnondetLen("m1", 0, len(vC18QuotesMethods)-1)
 	m2 := vnondetLen("m2", m1, len(vC18QuotesMethods)-1)
